@@ -131,6 +131,13 @@ class C08(Check):
             if kind == "shrink":
                 factor = rng.choice([0.3, 0.4, 0.5, 0.6, 0.75])
         tight = kind == "shrink" and rng.chance(0.3)
+        if rng.chance(0.12) and "cluster" not in cfg:
+            # a few bad blocks, most of them in the part a shrink cuts off
+            nblk = cfg["size_kib"] * 1024 // cfg["bs"]
+            keep = max(1024, int(cfg["size_kib"] * factor)) * 1024 // cfg["bs"]
+            lo = min(keep, nblk - 2) if kind in ("shrink", "min") else nblk * 6 // 10
+            cfg["badblocks"] = [rng.range(lo, nblk - 1) for _ in range(rng.range(1, 5))] + \
+                ([rng.range(nblk * 6 // 10, nblk - 1)] if rng.chance(0.5) else [])
         return {"cfg": cfg, "world_seed": rng.u64(), "kind": kind, "kib": max(1024, int(cfg["size_kib"] * factor)),
                 "spread": spread, "tight": tight, "tight_delta": rng.choice([0, 0, 1, 2, 3, 8, 30]), "fill": rng.chance(0.25),
                 "flags": rng.choice([[], [], ["-p"], ["-f"]]), "subset_seed": rng.u64(), "subsets": 6 if tier == "quick" else 24,
